@@ -31,6 +31,9 @@ use gethostname::gethostname;
 use std::sync::Arc;
 use std::time as stdtime;
 
+#[cfg(rssched_verif)]
+pub mod verif;
+
 pub fn solve_instance(input_data: serde_json::Value) -> serde_json::Value {
     let start_time = stdtime::Instant::now();
     let network = load_rolling_stock_problem_instance_from_json(input_data);
@@ -46,6 +49,8 @@ pub fn solve_instance(input_data: serde_json::Value) -> serde_json::Value {
     println!("Solve with MinCostFlowSolver:");
     let min_cost_flow_solver = MinCostFlowSolver::initialize(network.clone());
     let start_schedule = min_cost_flow_solver.solve();
+    #[cfg(rssched_verif)]
+    verif::record_stage("min_cost_flow", &start_schedule);
     println!(
         "MinCostFlowSolver computed schedule (elapsed time: {:0.2}sec)",
         start_time.elapsed().as_secs_f32()
@@ -56,6 +61,8 @@ pub fn solve_instance(input_data: serde_json::Value) -> serde_json::Value {
         SwapInfo::NoSwap,
         "Result from min cost flow solver".to_string(),
     );
+    #[cfg(rssched_verif)]
+    verif::record_stage("start", start_schedule_with_info.get_schedule());
 
     let solution = if network.maintenance_considered() {
         println!("\nStarting local search:\n");
@@ -80,6 +87,8 @@ pub fn solve_instance(input_data: serde_json::Value) -> serde_json::Value {
     let start_time_transition_optimization = stdtime::Instant::now();
     let mut optimized_transitions: HashMap<VehicleTypeIdx, Transition> = HashMap::new();
     let schedule = solution.solution().get_schedule();
+    #[cfg(rssched_verif)]
+    verif::record_stage("local_search", schedule);
     let transition_local_search_solver =
         build_transition_local_search_solver(schedule, network.clone());
     for vehicle_type in network.vehicle_types().iter() {
@@ -98,8 +107,15 @@ pub fn solve_instance(input_data: serde_json::Value) -> serde_json::Value {
 
         optimized_transitions.insert(vehicle_type, improved_transition);
     }
+    #[cfg(rssched_verif)]
+    verif::record_transitions(&optimized_transitions);
     let schedule_with_optimized_transitions =
         schedule.set_next_day_transitions(optimized_transitions);
+    #[cfg(rssched_verif)]
+    verif::record_stage(
+        "optimized_transitions",
+        &schedule_with_optimized_transitions,
+    );
     println!(
         "Transition optimized (elapsed time: {:0.2}sec)",
         start_time_transition_optimization.elapsed().as_secs_f32()
@@ -122,6 +138,8 @@ pub fn solve_instance(input_data: serde_json::Value) -> serde_json::Value {
     let runtime_duration = end_time.duration_since(start_time);
 
     let final_schedule = final_solution.solution().get_schedule();
+    #[cfg(rssched_verif)]
+    verif::record_stage("final", final_schedule);
 
     let overflow_depot = network.overflow_depot_idxs().0;
     for vehicle_type in network.vehicle_types().iter() {
